@@ -63,7 +63,7 @@ ANCHORS = [
     "aiohttp.compression_utils:ZLibDecompressor.decompress_sync",
     "aiohttp._websocket.helpers:_websocket_mask_python",
 ]
-SHARD_TIMEOUT = {"quick": 600, "thorough": 3600}
+SHARD_TIMEOUT = {"quick": 900, "thorough": 14400}
 
 DEFAULT_MAX = 4 * 1024 * 1024
 MAXES = [0, 16, 256, DEFAULT_MAX]
